@@ -516,6 +516,8 @@ class Duration(Artifact):
         minute, hour, day, night, week, month, year
         """
         super().__init__()
+        # compare and hash by value, not by the character span (like Time, Interval)
+        self._attrs = ["value", "unit"]
         self.value = value
         self.unit = unit
 
